@@ -94,7 +94,7 @@ def repo_sources(repo, with_main=False):
 # variant name: <kind>-c<X>d<Y>
 KIND_FLAGS = {
     'plain': ['-O1', '-g'],
-    'asan': ['-O1', '-g', '-fsanitize=address,undefined', '-fno-omit-frame-pointer', '-fno-sanitize-recover=undefined'],
+    'asan': ['-O1', '-g', '-fsanitize=address,undefined', '-fno-omit-frame-pointer', '-fno-sanitize-recover=undefined', '-D_GLIBCXX_ASSERTIONS', '-D_GLIBCXX_SANITIZE_VECTOR'],
     'tsan': ['-O1', '-g', '-fsanitize=thread'],
     'init0': ['-O1', '-g', '-ftrivial-auto-var-init=zero'],
     'initP': ['-O1', '-g', '-ftrivial-auto-var-init=pattern'],
